@@ -401,4 +401,108 @@ theorem get_map_putAll {τ : Type} [DecidableEq τ] (hs : Entries κ ν) (T : En
     · simp [ht]
     · simp only [ht, decide_false]; exact ih
 
+/-! ### reverseMapChecked: duplicate ⇒ Fatal in every order, otherwise the injective case -/
+
+theorem revFold_none (l : Entries String String) : l.foldl revStep none = none := by
+  induction l with
+  | nil => rfl
+  | cons e l ih => simpa [List.foldl_cons, revStep] using ih
+
+/-- closed form: the checked fold succeeds iff the values seen so far and the remaining ones are all distinct -/
+theorem revFold_eq (l : Entries String String) :
+    ∀ (m : Entries String String), ((keys m) ++ l.map (·.2)).Nodup →
+      l.foldl revStep (some m) = some (putAll (l.map (fun e => (e.2, e.1))) m) := by
+  induction l with
+  | nil => intro m _; simp [putAll]
+  | cons e l ih =>
+    intro m h
+    have hne : (keys m).contains e.2 = false := by
+      rw [Bool.eq_false_iff]
+      intro hc
+      have hm : e.2 ∈ keys m := List.contains_iff_mem.mp hc
+      have := (List.nodup_append.mp h).2.2 e.2 hm e.2 (by simp)
+      exact this rfl
+    simp only [List.foldl_cons, revStep, hne, Bool.false_eq_true, ↓reduceIte]
+    have h' : (keys (put m e.2 e.1) ++ l.map (·.2)).Nodup := by
+      simp only [keys_put, List.cons_append, List.nodup_cons]
+      have h1 := List.nodup_append.mp h
+      simp only [List.map_cons, List.nodup_cons] at h1
+      refine ⟨?_, ?_⟩
+      · intro hmem
+        rcases List.mem_append.mp hmem with hm | hm
+        · exact (h1.2.2 e.2 hm e.2 (by simp)) rfl
+        · exact h1.2.1.1 hm
+      · rw [List.nodup_append]
+        exact ⟨h1.1, h1.2.1.2, fun a ha b hb => h1.2.2 a ha b (List.mem_cons_of_mem _ hb)⟩
+    rw [ih _ h']
+    simp [putAll, put]
+
+theorem revFold_dup (l : Entries String String) :
+    ∀ (m : Entries String String), ¬ ((keys m) ++ l.map (·.2)).Nodup → (keys m).Nodup →
+      l.foldl revStep (some m) = none := by
+  induction l with
+  | nil => intro m h hm; simp at h; exact absurd hm h
+  | cons e l ih =>
+    intro m h hm
+    simp only [List.foldl_cons, revStep]
+    by_cases hc : (keys m).contains e.2 = true
+    · rw [if_pos hc]; exact revFold_none l
+    · rw [if_neg hc]
+      have hnm : e.2 ∉ keys m := fun hmem => hc (List.contains_iff_mem.mpr hmem)
+      apply ih
+      · intro hn
+        apply h
+        simp only [keys_put, List.cons_append, List.nodup_cons] at hn
+        rw [List.nodup_append] at hn ⊢
+        simp only [List.map_cons, List.nodup_cons]
+        refine ⟨hm, ⟨?_, hn.2.2.1⟩, ?_⟩
+        · intro hmem; exact hn.1 (List.mem_append.mpr (Or.inr hmem))
+        · intro a ha b hb
+          rcases List.mem_cons.mp hb with rfl | hb
+          · intro hab; exact hnm (hab ▸ ha)
+          · exact hn.2.2.2 a ha b hb
+      · simp only [keys_put, List.nodup_cons]; exact ⟨hnm, hm⟩
+
+/-- for ALL alias maps: the outcome (Fatal, or the reversed map as a function) does not depend on the order -/
+theorem reverseMapChecked_perm {ord₁ ord₂ : Entries String String} (hp : ord₁.Perm ord₂) :
+    ((reverseMapChecked ord₁).isNone = (reverseMapChecked ord₂).isNone) ∧
+    ∀ r₁ r₂, reverseMapChecked ord₁ = some r₁ → reverseMapChecked ord₂ = some r₂ → ∀ p, get r₁ p = get r₂ p := by
+  by_cases hn : (ord₁.map (·.2)).Nodup
+  · have hn₂ : (ord₂.map (·.2)).Nodup := (List.Perm.nodup_iff (hp.map (fun x => x.2))).mp hn
+    have e1 := revFold_eq ord₁ [] (by simpa [keys] using hn)
+    have e2 := revFold_eq ord₂ [] (by simpa [keys] using hn₂)
+    simp only [reverseMapChecked, e1, e2]
+    refine ⟨rfl, ?_⟩
+    intro r₁ r₂ h1 h2 p
+    cases h1; cases h2
+    apply putAll_perm (hp.map _)
+    simpa [keys, List.map_map, Function.comp_def] using hn
+  · have hn₂ : ¬ (ord₂.map (·.2)).Nodup := fun h => hn ((List.Perm.nodup_iff (hp.map (fun x => x.2))).mpr h)
+    have e1 := revFold_dup ord₁ [] (by simpa [keys] using hn) (by simp [keys])
+    have e2 := revFold_dup ord₂ [] (by simpa [keys] using hn₂) (by simp [keys])
+    simp only [reverseMapChecked, e1, e2]
+    exact ⟨trivial, fun _ _ h => by cases h⟩
+
+theorem realPathParamsChecked_perm {ord₁ ord₂ : Entries String String} (hp : ord₁.Perm ord₂) (ps : List String) :
+    realPathParamsChecked ord₁ ps = realPathParamsChecked ord₂ ps := by
+  have h := reverseMapChecked_perm hp
+  simp only [realPathParamsChecked]
+  cases h1 : reverseMapChecked ord₁ with
+  | none =>
+    have : (reverseMapChecked ord₂).isNone = true := by rw [← h.1, h1]; rfl
+    rw [Option.isNone_iff_eq_none.mp this]
+  | some r₁ =>
+    cases h2 : reverseMapChecked ord₂ with
+    | none => rw [h1, h2] at h; simp at h
+    | some r₂ =>
+      simp only [Option.map_some, Option.some.injEq]
+      apply List.map_congr_left
+      intro p _
+      rw [h.2 r₁ r₂ h1 h2 p]
+
+theorem successMessage_perm {ν : Type} {ord₁ ord₂ : Entries String ν} (hp : ord₁.Perm ord₂) :
+    successMessage ord₁ = successMessage ord₂ := by
+  unfold successMessage keys
+  exact sortStrings_perm (hp.map _)
+
 end ShootVerif.DetOrder
